@@ -103,6 +103,9 @@ pub struct Counters {
 pub struct World {
     pub active: bool,
     pub disk: BTreeMap<String, Vec<u8>>,
+    /// modification time of every simulated file (seconds; a logical tick per modification)
+    pub mtimes: BTreeMap<String, u64>,
+    pub tick: u64,
     pub fds: BTreeMap<i32, OpenFile>,
     pub plan: Plan,
     pub n_open: u64,
@@ -123,6 +126,8 @@ impl World {
         World {
             active: false,
             disk: BTreeMap::new(),
+            mtimes: BTreeMap::new(),
+            tick: 1_700_000_000,
             fds: BTreeMap::new(),
             plan: Plan {
                 open: BTreeMap::new(),
@@ -152,6 +157,11 @@ impl World {
             },
         }
     }
+    fn touch(&mut self, path: &str) {
+        self.tick += 1;
+        let t = self.tick;
+        self.mtimes.insert(path.to_string(), t);
+    }
     fn fire(&mut self, k: &'static str) {
         *self.counters.fired.entry(k).or_insert(0) += 1;
     }
@@ -177,6 +187,7 @@ pub fn reset_world() {
     let mut w = world();
     w.active = true;
     w.disk.clear();
+    w.mtimes.clear();
     w.plan = Plan::default();
     w.n_open = 0;
     w.n_write = 0;
@@ -218,6 +229,14 @@ pub fn disk_get(path: &str) -> Option<Vec<u8>> {
 }
 
 pub fn disk_put(path: &str, data: Vec<u8>) {
+    let mut w = world();
+    w.disk.insert(path.to_string(), data);
+    w.touch(path);
+}
+
+/// Replace a file's contents "from outside" while keeping its modification time (cp -p, rsync -t,
+/// a file system with coarse timestamps).
+pub fn disk_put_keep_mtime(path: &str, data: Vec<u8>) {
     world().disk.insert(path.to_string(), data);
 }
 
@@ -317,6 +336,7 @@ unsafe fn sim_open(path: &str, flags: i32) -> i32 {
     }
     if flags & libc::O_TRUNC != 0 && acc != libc::O_RDONLY {
         w.disk.get_mut(path).unwrap().clear();
+        w.touch(path);
     }
     let fd = placeholder_fd();
     if fd < 0 || fd as usize >= MAX_FD {
@@ -526,6 +546,8 @@ pub unsafe extern "C" fn write(fd: i32, buf: *const libc::c_void, count: usize) 
         img.resize(off + n, 0);
     }
     img[off..off + n].copy_from_slice(data);
+    let touched = w.fds.get(&fd).map(|f| f.path.clone()).unwrap_or_default();
+    w.touch(&touched);
     w.fds.get_mut(&fd).unwrap().off = off + n;
     w.counters.bytes_written += n as u64;
     w.ev(Ev { sys: b'w', idx, req: count as u64, act: act_code, ret: n as i64 });
@@ -648,6 +670,15 @@ fn is_sim_fd(fd: i32) -> bool {
     fd >= 0 && (fd as usize) < MAX_FD && SIM_FD[fd as usize].load(Ordering::SeqCst)
 }
 
+fn sim_mtime_of_fd(fd: i32) -> u64 {
+    let w = world();
+    w.fds.get(&fd).and_then(|f| w.mtimes.get(&f.path).copied()).unwrap_or(0)
+}
+
+fn sim_mtime_of_path(p: &str) -> u64 {
+    world().mtimes.get(p).copied().unwrap_or(0)
+}
+
 fn sim_fd_len(fd: i32) -> Option<u64> {
     let mut w = world();
     let path = w.fds.get(&fd)?.path.clone();
@@ -669,8 +700,11 @@ fn sim_path_len(p: &str) -> Option<u64> {
     Some(real)
 }
 
-unsafe fn fill_statx(buf: *mut libc::statx, len: u64) {
+unsafe fn fill_statx(buf: *mut libc::statx, len: u64, mtime: u64) {
     std::ptr::write_bytes(buf, 0, 1);
+    (*buf).stx_mtime.tv_sec = mtime as i64;
+    (*buf).stx_ctime.tv_sec = mtime as i64;
+    (*buf).stx_atime.tv_sec = mtime as i64;
     (*buf).stx_mask = libc::STATX_BASIC_STATS;
     (*buf).stx_blksize = 4096;
     (*buf).stx_nlink = 1;
@@ -684,14 +718,14 @@ pub unsafe extern "C" fn statx(dirfd: i32, path: *const libc::c_char, flags: i32
     let empty = path.is_null() || *path == 0;
     if empty && is_sim_fd(dirfd) {
         if let Some(len) = sim_fd_len(dirfd) {
-            fill_statx(buf, len);
+            fill_statx(buf, len, sim_mtime_of_fd(dirfd));
             return 0;
         }
     }
     if let Some(p) = path_of(path) {
         return match sim_path_len(&p) {
             Some(len) => {
-                fill_statx(buf, len);
+                fill_statx(buf, len, sim_mtime_of_path(&p));
                 0
             }
             None => {
@@ -703,8 +737,11 @@ pub unsafe extern "C" fn statx(dirfd: i32, path: *const libc::c_char, flags: i32
     libc::syscall(libc::SYS_statx, dirfd, path, flags, mask, buf) as i32
 }
 
-unsafe fn fill_stat(buf: *mut libc::stat, len: u64) {
+unsafe fn fill_stat(buf: *mut libc::stat, len: u64, mtime: u64) {
     std::ptr::write_bytes(buf, 0, 1);
+    (*buf).st_mtime = mtime as i64;
+    (*buf).st_ctime = mtime as i64;
+    (*buf).st_atime = mtime as i64;
     (*buf).st_mode = libc::S_IFREG | 0o644;
     (*buf).st_nlink = 1;
     (*buf).st_size = len as i64;
@@ -716,7 +753,7 @@ unsafe fn fill_stat(buf: *mut libc::stat, len: u64) {
 pub unsafe extern "C" fn fstat(fd: i32, buf: *mut libc::stat) -> i32 {
     if is_sim_fd(fd) {
         if let Some(len) = sim_fd_len(fd) {
-            fill_stat(buf, len);
+            fill_stat(buf, len, sim_mtime_of_fd(fd));
             return 0;
         }
     }
@@ -733,7 +770,7 @@ unsafe fn stat_path(path: *const libc::c_char, buf: *mut libc::stat, nofollow: b
     if let Some(p) = path_of(path) {
         return match sim_path_len(&p) {
             Some(len) => {
-                fill_stat(buf, len);
+                fill_stat(buf, len, sim_mtime_of_path(&p));
                 0
             }
             None => {
